@@ -33,6 +33,8 @@ type Solver struct {
 	PreHits   int
 	timeoutMs int
 	Hung      bool
+	retrying  bool
+	Retries   int
 	LastErr   string
 }
 
@@ -219,6 +221,28 @@ func (s *Solver) Check(extra ...*Term) string {
 	if sawErr {
 		s.Errors++
 		res = "unknown"
+	} else if res == "unknown" && !strings.Contains(s.bin, "cvc5") && !s.retrying {
+		// a time-out (e.g. on a loaded machine): ask once more with three times the limit
+		s.retrying = true
+		s.Retries++
+		s.send(fmt.Sprintf("(set-option :timeout %d)", 3*s.timeoutMs))
+		save := s.timeoutMs
+		s.timeoutMs = 3 * save
+		s.send("(check-sat)")
+		s.send("(echo \"@@done\")")
+		s.in.Flush()
+		for {
+			l := s.readLine()
+			if strings.Contains(l, "@@done") {
+				break
+			}
+			if l == "sat" || l == "unsat" || l == "unknown" {
+				res = l
+			}
+		}
+		s.timeoutMs = save
+		s.send(fmt.Sprintf("(set-option :timeout %d)", save))
+		s.retrying = false
 	}
 	if len(extra) > 0 {
 		s.send("(pop 1)")
